@@ -8,14 +8,24 @@ import importlib.util  # noqa: E402
 spec = importlib.util.spec_from_file_location('c09proofs', os.path.join(here, '..', 'C09', 'proofs.py'))
 c09 = importlib.util.module_from_spec(spec)
 spec.loader.exec_module(c09)
+NEED_OPTIONS = True
 PROOFS = [fileio_proofs.bcm_proof(), fileio_proofs.dsf_proof()] + [p for p in c09.PROOFS if p.name == 'write_byte_bout']
 EXPLANATION = ('Kernel of C12: bout_content_matches() is true exactly when the captured output equals the input byte for byte (both directions, arbitrary '
                'index) and reports PASS/FAIL consistently; write_byte() appends to cpd.bout and writes nothing else when cpd.fout is NULL; do_source_file() '
                'performs no file-system modifying call under --check, and none under --if-changed when the comparison says unchanged.')
-K = ['K1 bout_content_matches: true <=> byte-equal; one PASS or FAIL line consistent with the result', 'K2 write_byte capture branch',
+K = ['K3 uncrustify_file: check_fail_cnt incremented exactly when --check and the buffers differ', 'K1 bout_content_matches: true <=> byte-equal; one PASS or FAIL line consistent with the result', 'K2 write_byte capture branch',
      'K4 do_source_file: --check => zero fs writes; --if-changed && unchanged => zero fs writes (early return)']
 G = ['main() turns check_fail_cnt into the exit status and rejects --check with output options / --if-changed (call-site precondition of do_source_file_contract; main is 740 lines of argument handling, not sliceable)',
-     'uncrustify_file increments check_fail_cnt iff !bout_content_matches (tail of uncrustify_file, not under contract yet)',
      'cpd.bout really holds what output_text wrote: every byte goes through write_byte (C09 static fact)',
      'files are smaller than 2 GiB (int loop index in bout_content_matches)',
      '--if-changed writes exactly *cpd.bout: the fputc loop in do_source_file is covered for frame/termination only, not for content']
+
+
+def proofs(tier, workroot):
+    """static list + the driver proof (uncrustify_file: shared with C04; its pass stubs are generated per run)"""
+    import importlib.util
+    here = os.path.dirname(os.path.abspath(__file__))
+    sp = importlib.util.spec_from_file_location('c04proofs', os.path.join(here, '..', 'C04', 'proofs.py'))
+    c04 = importlib.util.module_from_spec(sp)
+    sp.loader.exec_module(c04)
+    return list(PROOFS) + c04.proofs(tier, workroot)
